@@ -489,13 +489,13 @@ def run(ctx):
     bad_keys()
     for suite in BL.SUITES:
         full = suite == "basic" or not q
-        ns, nm = (6, 2) if q else (6, 3)
+        ns, nm = (4, 2) if q else (6, 3)  # substitution alternatives: signers 0..3 in quick
         pool = [(s, m) for s in range(2 if q else 3) for m in range(2 if q else 3)]
         states = multisets(pool, 2) + ([[(2, 0)], [(2, 1)], [(0, 0), (2, 1)]] if q and full else [])
         if q and not full:
-            # the other two suites: all singletons and the four pair shapes (distinct / same signer x
+            # the other two suites: two singletons and the four pair shapes (distinct / same signer x
             # distinct / same message); the basic suite keeps the complete size <= 2 exploration
-            states = multisets(pool, 1) + [[(0, 0), (1, 1)], [(0, 0), (1, 0)], [(0, 0), (0, 1)], [(0, 0), (0, 0)]]
+            states = [[(0, 0)], [(1, 1)], [(0, 0), (1, 1)], [(0, 0), (1, 0)], [(0, 0), (0, 1)], [(0, 0), (0, 0)]]
         # canonical size-3 shapes (+ coincidence signers 3: same key as 0, 4: k0 + k1)
         shapes3 = [[(0, 0), (1, 1), (2, 0)], [(0, 0), (0, 1), (1, 0)], [(0, 0), (0, 0), (1, 1)], [(0, 0), (1, 0), (2, 0)],
                    [(0, 0), (3, 1), (1, 0)], [(0, 0), (1, 0), (4, 1)], [(0, 0), (3, 0), (1, 1)], [(4, 0), (0, 1), (1, 1)]]
@@ -504,8 +504,8 @@ def run(ctx):
         # PoP suite), and a cancelling prefix followed by more signatures
         cancel = [[(0, 0), (5, 0)], [(0, 0), (5, 0), (1, 1)]]
         if q:
-            shapes3 = shapes3[:2] + shapes3[4:6] if full else shapes3[:1] + shapes3[4:5]
-            coinc2 = coinc2 if full else coinc2[:2]
+            shapes3 = shapes3[:2] + shapes3[4:6] if full else shapes3[:1]
+            coinc2 = coinc2 if full else coinc2[:1]
         else:
             states = multisets(pool, 2) + [list(c) for c in itertools.combinations_with_replacement(pool[:4], 3)]
             shapes3 += [[(0, 0), (1, 1), (2, 2), (0, 1)], [(0, 0), (1, 0), (2, 0), (3, 0)]]
